@@ -74,7 +74,7 @@ COMPACT = '''
 pub mod mel_compact_$M {
 use super::*;
 broadcast use auto::psc_auto;
-//@module mel_compact_$M props=C13,C04
+//@module mel_compact_$M props=C04,C13
 impl MaxEncodedLen for Compact<$T> {
     //@fn mel.compact.$M :: max_encoded_len | impl MaxEncodedLen for Compact<$T> | max_encoded_len
     //@ at start
